@@ -100,6 +100,85 @@ def k2_unreachable(ctx, rule, where, g, env, b, what):
     return ctx.check(rule, where, not hit, what, construct=describe(g, hit), message=f"guard missing — {what}", witness=g.show_path(w) if w else None)
 
 
+def effect_signature(fn):
+    """Source-order sequence of the events of a function body that survive renaming of locals, introduction of
+    temporaries, comments, docstrings and annotations: callee names, attribute stores/deletes on self, control transfers,
+    comparison / boolean operators and constants."""
+    import ast as _ast
+
+    ev = []
+
+    def visit(n):
+        post = None
+        if isinstance(n, (_ast.FunctionDef, _ast.AsyncFunctionDef, _ast.Lambda)) and n is not fn:
+            ev.append("def")
+        # expression operators are emitted after their operands (evaluation order): `t = f(); if t is None:` and
+        # `if f() is None:` give the same sequence
+        if isinstance(n, _ast.Call):
+            d = dotted(n.func)
+            post = "call " + (d if d and (d.startswith("self.") or "." not in d or d.split(".")[0] in {"os", "osutils", "errors", "stat", "shutil", "trace", "urlutils"}) else "." + (call_attr(n) or "?"))
+        elif isinstance(n, _ast.Attribute) and isinstance(n.ctx, (_ast.Store, _ast.Del)) and dotted(n):
+            post = ("store " if isinstance(n.ctx, _ast.Store) else "del ") + dotted(n)
+        elif isinstance(n, _ast.Subscript) and isinstance(n.ctx, (_ast.Store, _ast.Del)) and dotted(n.value) and dotted(n.value).startswith("self."):
+            post = ("store " if isinstance(n.ctx, _ast.Store) else "del ") + dotted(n.value) + "[]"
+        elif isinstance(n, (_ast.Continue, _ast.Break, _ast.Try, _ast.With, _ast.For, _ast.ExceptHandler)):
+            ev.append(type(n).__name__.lower() + (" " + "|".join(handler_types_(n)) if isinstance(n, _ast.ExceptHandler) else ""))
+        elif isinstance(n, (_ast.Return, _ast.Raise, _ast.Yield, _ast.YieldFrom)):
+            post = type(n).__name__.lower()
+        elif isinstance(n, _ast.Compare):
+            post = "cmp " + " ".join(type(o).__name__ for o in n.ops)
+        elif isinstance(n, _ast.BoolOp):
+            post = type(n.op).__name__.lower()
+        elif isinstance(n, _ast.UnaryOp) and isinstance(n.op, _ast.Not):
+            post = "not"
+        elif isinstance(n, _ast.Constant) and not isinstance(n.value, type(None)):
+            ev.append("const " + repr(n.value)[:40])
+        fields = list(_ast.iter_fields(n))
+        if isinstance(n, (_ast.If, _ast.While, _ast.IfExp)):
+            visit(n.test)
+            ev.append(type(n).__name__.lower())
+            fields = [(k, v) for k, v in fields if k != "test"]
+        if isinstance(n, _ast.Assign):
+            fields = [("value", n.value), ("targets", n.targets)]
+        for f_, v in fields:
+            if f_ in ("annotation", "returns", "decorator_list"):
+                continue
+            for c in v if isinstance(v, list) else [v]:
+                if isinstance(c, _ast.AST):
+                    visit(c)
+        if post:
+            ev.append(post)
+
+    def handler_types_(h):
+        from .astutil import handler_types
+
+        return sorted(handler_types(h))
+
+    body = [s for s in fn.body if not (isinstance(s, _ast.Expr) and isinstance(s.value, _ast.Constant))]
+    for s in body:
+        visit(s)
+    return ev
+
+
+def clone_agreement(ctx, rule, rel_a, rel_b, quals, why):
+    """K7 for cloned siblings: each qualified function in `quals` exists in both modules and the two bodies have the
+    same effect signature (see effect_signature: renaming locals, temporaries, comments, docstrings do not matter).  An
+    edit made to both siblings passes; a behavioural edit made to one is reported with the first differing event."""
+    for q in quals:
+        a, b = ctx.repo.func(rel_a, q), ctx.repo.func(rel_b, q)
+        sa_, sb_ = effect_signature(a), effect_signature(b)
+        same = sa_ == sb_
+        first = ""
+        if not same:
+            for i in range(max(len(sa_), len(sb_))):
+                x = sa_[i] if i < len(sa_) else "<end>"
+                y = sb_[i] if i < len(sb_) else "<end>"
+                if x != y:
+                    first = f"event #{i}: {rel_a} has `{x}` (L{a.lineno}+) where {rel_b} has `{y}` (L{b.lineno}+)"
+                    break
+        ctx.check(rule, f"{rel_a}:{q}", same, f"`{q}` does the same thing in both transform families ({why})", construct=first, message=f"sibling implementations of `{q}` have diverged — {first}. The two families share this logic; a change made to one of them changes what one tree format computes but not the other")
+
+
 def test_nodes(g, pred):
     return [n.id for n in g.nodes if n.kind == "test" and pred(n.ast)]
 
